@@ -104,7 +104,7 @@ def run(chk):
     fuzz_bins = dict(zip([fmt for fmt, _ in TARGETS], bins[3:3 + len(TARGETS)]))
     fuzz_dbg_bins = dict(zip([fmt for fmt, _ in TARGETS[:6]], bins[3 + len(TARGETS):]))
     env = dict(os.environ, **vlib.SAN_ENV)
-    p = subprocess.run([asan, '--mode', 'count', '--seed', str(chk.seed), '--tier', chk.tier], stdout=subprocess.PIPE, text=True, env=env)
+    p = subprocess.run([asan, '--mode', 'count', '--seed', str(chk.seed), '--tier', chk.tier], stdout=subprocess.PIPE, stderr=subprocess.DEVNULL, text=True, env=env)
     try:
         nprefix, nsubst, nevil, nseeds = [int(x) for x in p.stdout.split()]
     except ValueError:
